@@ -369,14 +369,19 @@ func init() {
 	register(&PropSpec{ID: "C09", Level: "exploration",
 		Rule: "twin nodes fed identical blocks; the subject is cleanly stopped and restarted from its simulated disk at seeded block boundaries (single, repeated, back-to-back, around payout/expiry/price-update blocks, with pruning keepLastStates in {0,1,5,120}); oracle: Info after restart, every later response and app hash, durable state (export, emission, versions, validators, price, block times, events) and live reads equal the never-restarted reference; distinct non-trivial case = distinct (restart phase within the stake period, restart ordinal) class",
 		Make: func(r *rand.Rand, seed int64, chain int, tier string) *Scenario {
-			p := GeneralProfile()
+			flavour := r.Intn(5)
+			p := flavourProfile(flavour)
 			p.PRestart = 0.06
 			p.PClockJump = 0.08
 			sc := baseScenario("C09", r, seed, chain, tier, p, func(g *GenCfg, n *NodeCfg) {
 				if r.Intn(4) == 0 {
 					n.ValidatorMode = true
 				}
+				flavourGen(r, flavour, g, n)
 			})
+			if flavour == 3 {
+				steerPriceWindow(r, sc, false)
+			}
 			// a share of the runs enumerates every restart point (and, thorough, every pair) of a short history
 			if r.Intn(5) == 0 {
 				sc.Params = map[string]int64{"c09_enum": 1}
@@ -530,5 +535,39 @@ func (m *MonC09Enum) Finish(w *World) {
 				}
 			}
 		}
+	}
+}
+
+// flavourProfile / flavourGen: workload flavours shared by the restart and crash checks (swarm style):
+// 0, 4 general; 1 order books and pools; 2 staking; 3 reward price updates (clock steered, BIP/USDT trades).
+func flavourProfile(flavour int) Profile {
+	switch flavour {
+	case 1:
+		p := PoolProfile(true)
+		p.PAbsent, p.PEvidence = 0.02, 0.01
+		return p
+	case 2:
+		return StakeProfile()
+	case 3:
+		p := GeneralProfile()
+		p.W["sellusdt"], p.W["sellbip"] = 14, 14
+		p.TxMax = 5
+		return p
+	}
+	return GeneralProfile()
+}
+
+func flavourGen(r *rand.Rand, flavour int, g *GenCfg, n *NodeCfg) {
+	switch flavour {
+	case 1:
+		g.NPool = 2 + r.Intn(3)
+		g.NToken = 2 + r.Intn(3)
+		n.ExpirePeriod = uint64(4 + r.Intn(14))
+	case 2:
+		g.Frozen = 4 + r.Intn(8)
+		g.NCand = 2 + r.Intn(4)
+	case 3:
+		g.OldRules = false
+		n.Period = []uint64{6, 6, 8, 12}[r.Intn(4)]
 	}
 }
